@@ -25,7 +25,14 @@ _initialised = False
 
 def init(n_jobs: int = 1):
     global _initialised
+    import sys
+
+    repo = os.environ.get("AFV_REPO", "/repo")
+    if repo not in sys.path:
+        sys.path.insert(0, repo)
     import accelforge  # noqa
+
+    assert os.path.realpath(accelforge.__file__).startswith(os.path.realpath(repo)), (accelforge.__file__, repo)
     from accelforge.util.parallel import set_n_parallel_jobs
 
     set_n_parallel_jobs(n_jobs)
@@ -392,3 +399,53 @@ def pool_map(fn, items, workers: int = 8):
     env = {k: os.environ[k] for k in ("ACCELFORGE_VERIF", "NUMBA_CACHE_DIR", "PYTHONPATH", "AFV_REPO") if k in os.environ}
     with cf.ProcessPoolExecutor(workers, mp_context=ctx, initializer=_worker_init, initargs=(os.getcwd(), env)) as ex:
         return list(ex.map(fn, items))
+
+
+def run_worker_subprocesses(cfgs: list[dict], envs: list[dict] | None = None, concurrency: int = 8, timeout: int = 1500) -> list[dict]:
+    """Run harness.mapper_worker once per config, each in a fresh interpreter (own PYTHONHASHSEED etc.)."""
+    import subprocess
+    import sys
+    import time as _t
+
+    verif = str(Path(__file__).resolve().parent.parent)
+    procs, results = {}, [None] * len(cfgs)
+    pending = list(range(len(cfgs)))
+
+    def start(i):
+        env = dict(os.environ)
+        env["PYTHONPATH"] = verif + os.pathsep + env.get("PYTHONPATH", "")
+        env.update((envs[i] if envs else {}) or {})
+        cfg = dict(cfgs[i])
+        cfg.setdefault("scratch", os.getcwd())
+        return subprocess.Popen([sys.executable, "-W", "ignore", "-m", "harness.mapper_worker", json.dumps(cfg)],
+                                stdout=subprocess.PIPE, stderr=subprocess.PIPE, text=True, env=env, cwd=os.getcwd())
+
+    t0 = _t.time()
+    while pending or procs:
+        while pending and len(procs) < concurrency:
+            i = pending.pop(0)
+            procs[i] = start(i)
+        done = [i for i, p in procs.items() if p.poll() is not None]
+        for i in done:
+            p = procs.pop(i)
+            out, errtxt = p.communicate()
+            line = [l for l in out.splitlines() if l.startswith("@@RESULT@@")]
+            if not line:
+                raise RuntimeError(f"mapper worker produced no result (exit {p.returncode}): {errtxt[-1500:]}")
+            results[i] = json.loads(line[-1][len("@@RESULT@@"):])
+        if not done:
+            _t.sleep(0.2)
+        if _t.time() - t0 > timeout:
+            for p in procs.values():
+                p.kill()
+            raise TimeoutError("mapper worker subprocesses timed out")
+    return results
+
+
+def canon_front(rows: list[dict], keys=("energy", "latency"), digits: int = 6) -> list[tuple]:
+    """Sorted list of objective vectors rounded to `digits` significant digits (float32 noise removed)."""
+    def rnd(x):
+        if x is None:
+            return None
+        return float(f"{x:.{digits}g}")
+    return sorted(tuple(rnd(r.get(k)) for k in keys) for r in rows)
